@@ -416,20 +416,20 @@ fn rt_inner<F: Flavour>(sc: &RtSc, stats: &mut Stats) -> Option<Violation> {
     }
     // other payload types: String keys, () node and edge values (parallel edges indistinguishable)
     let pairs: Vec<(usize, usize)> = sc.edges.iter().map(|(u, v, _)| (*u, *v)).collect();
-    match F::alt_round_trip(sc.prios.len(), &pairs, sc.wire, (sc.ser_hash % 4) as u8) {
+    match F::alt_round_trip(sc.prios.len(), &pairs, sc.wire, (sc.ser_hash % 12) as u8) {
         Ok((before, after)) => {
             stats.inc("alt_type_round_trips");
             if before != after {
                 return Some(Violation::new(
                     "round-trip-mismatch",
-                    format!("{} {:?} with String keys and () values: before {before}, after {after}", sc.flavour, sc.wire),
+                    format!("{} {:?} instantiated with other key and payload types (String keys and () values; String keys, Option<String> nodes, [u8; 0] edges; two-field keys, nested node values, u64 edges near the maximum): before {before}, after {after}", sc.flavour, sc.wire),
                 ));
             }
         }
         Err(e) => {
             return Some(Violation::new(
                 "de-failed",
-                format!("{} {:?}: round trip of the same graph with String keys and () values failed: {e}", sc.flavour, sc.wire),
+                format!("{} {:?}: round trip of the same graph instantiated with other key and payload types failed: {e}", sc.flavour, sc.wire),
             ))
         }
     }
